@@ -17,7 +17,7 @@ def families(seed, n):
         post = gp.text(gp.seq(0, True, False, True, False, 2)) if r.random() < 0.7 else ""
         if pre.endswith(("(?i)", "(?-i)", "(?i-i)")) and r.random() < 0.5:
             pre += ""
-        law = r.choice(["alt", "alt", "rep", "wrap-alt", "wrap-rep", "any", "any-compiled", "any-nested"])
+        law = r.choice(["alt", "alt", "rep", "wrap-alt", "wrap-rep", "any", "any-compiled", "any-owned", "any-nested"])
         lb = pre.endswith(("/", "**")) or pre == ""
         rb = post.startswith(("/", "**")) or post == ""
         edge = r.random() < 0.3
@@ -78,14 +78,14 @@ def run(rep, tier, seed, replay):
     anyreq, anyidx = [], []
     for j, (law, whole, parts) in enumerate(fams):
         if whole is None:
-            cmd = {"any": "A", "any-compiled": "AC", "any-nested": "AN"}[law]
+            cmd = {"any": "A", "any-compiled": "AC", "any-owned": "AO", "any-nested": "AN"}[law]
             if law == "any-nested" and len(parts) < 2:
                 cmd = "A"
             anyreq.append("%s %d %s" % (cmd, len(parts), " ".join(hexs(p) for p in parts)))
             anyidx.append(j)
     anyres = dict(zip(anyidx, h.ask(anyreq)))
     # the model of the combinator's tree: a top-level alternation (AC builds the same tree as A)
-    many = dict(zip(anyidx, m.ask([q.replace("AC ", "A ", 1) for q in anyreq])))
+    many = dict(zip(anyidx, m.ask([q.replace("AC ", "A ", 1).replace("AO ", "A ", 1) for q in anyreq])))
     fany = dict(zip(anyidx, m.ask([("FAN " if q.startswith("AN ") else "FA ") + q.split(" ", 1)[1] for q in anyreq])))
     reqs, ridx = [], []
     for j, (law, whole, parts) in enumerate(fams):
